@@ -65,12 +65,12 @@ Inductive value :=
 
 Inductive rterr := DivZero | StackOv | IdxOob | TypeMis | InvIdx.
 
+(* the panic-capable sites that remain in src/runtime.rs after the type-dispatch arms were
+   turned into Type-mismatch errors (see Properties/C06.v for which are provably dead) *)
 Inductive psite :=
-| PCond | PLoopCond | PAndRhs | POrRhs | PNumOp | PStrOp | PStrNum | PNumStr | PBoolOp
-| PNullOp | PNullMixed | PMixed | PUnary | PIdxNonArray | PMemberNoCall | PCallee
-| PVarMissing | PFuncMissing | PArgCount | PBuiltinArity | PBreakEscapes | PAssignMissing
-| PIdxTarget | PMutVarMissing | PBoolMethod | PStrArg | PNumArgs | PArgIndex | PSegVar
-| PParamRange | PNoFnScope | PIdxAssignEnd | PFind | PMutBuiltin.
+| PNumOp | PVarMissing | PFuncMissing | PArgCount | PBuiltinArity | PBreakEscapes
+| PAssignMissing | PMutVarMissing | PArgIndex | PSegVar | PParamRange | PNoFnScope
+| PIdxAssignEnd | PFind | PMutBuiltin.
 
 Inductive res (A : Type) :=
 | Ok (a : A) | Err (e : rterr) | Panic (p : psite) | Fuel | Unsupp.
@@ -416,29 +416,29 @@ Definition binop_values (eps : f64) (op : binop) (l r : value) : res value :=
       | OEq => Ok (VBool (bytes_eqb a b))
       | OGt => Ok (VBool (bytes_ltb b a))
       | OLt => Ok (VBool (bytes_ltb a b))
-      | _ => Panic PStrOp
+      | _ => Err TypeMis
       end
-  | VStr a, VNum b => match op with Add => Ok (VStr (a ++ fmt b)) | _ => Panic PStrNum end
-  | VNum a, VStr b => match op with Add => Ok (VStr (fmt a ++ b)) | _ => Panic PNumStr end
+  | VStr a, VNum b => match op with Add => Ok (VStr (a ++ fmt b)) | _ => Err TypeMis end
+  | VNum a, VStr b => match op with Add => Ok (VStr (fmt a ++ b)) | _ => Err TypeMis end
   | VBool a, VBool b =>
       match op with
       | OEq => Ok (VBool (Bool.eqb a b))
       | OGt => Ok (VBool (a && negb b))
       | OLt => Ok (VBool (negb a && b))
-      | _ => Panic PBoolOp
+      | _ => Err TypeMis
       end
   | VNull, VNull =>
       match op with
       | OEq => Ok (VBool true)
       | OGt | OLt => Ok (VBool false)
-      | _ => Panic PNullOp
+      | _ => Err TypeMis
       end
   | VNull, _ | _, VNull =>
       match op with
       | OEq | OGt | OLt => Ok (VBool false)
-      | _ => Panic PNullMixed
+      | _ => Err TypeMis
       end
-  | _, _ => Panic PMixed
+  | _, _ => Err TypeMis
   end.
 
 (* ---------- string / number / array methods on evaluated arguments ---------- *)
@@ -460,8 +460,8 @@ Section Run.
 Variable P : plan.
 Variable eps : f64.            (* FLOAT_EQ_EPS, regenerated from the source *)
 
-Definition truthy_cond (site : psite) (v : value) : res bool :=
-  match v with VBool b => Ok b | VNull => Ok false | _ => Panic site end.
+Definition truthy_cond (v : value) : res bool :=
+  match v with VBool b => Ok b | VNull => Ok false | _ => Err TypeMis end.
 
 Definition M (A : Type) : Type := (list value * res A)%type.
 Definition bindM {A B} (m : M A) (f : A -> M B) : M B :=
@@ -512,7 +512,7 @@ Fixpoint eval (n : nat) (e : expr) (s : st) {struct n} : M (value * st) :=
           end
       | EIdx _ _ =>
           match flatten_target o [] with
-          | None => PanicM PIdxTarget
+          | None => ErrM TypeMis
           | Some (vn, vl, idx_exprs) =>
               do (path, s1) <- eval_indices idx_exprs s;
               match lookup_env vl vn (env s1) with
@@ -557,7 +557,7 @@ Fixpoint eval (n : nat) (e : expr) (s : st) {struct n} : M (value * st) :=
                match r with
                | VBool x => OkM (VBool x, s2)
                | VNull => OkM (VBool false, s2)
-               | _ => PanicM PAndRhs
+               | _ => ErrM TypeMis
                end
         end
     | EBin Or a b =>
@@ -568,7 +568,7 @@ Fixpoint eval (n : nat) (e : expr) (s : st) {struct n} : M (value * st) :=
                match r with
                | VBool x => OkM (VBool x, s2)
                | VNull => OkM (VBool false, s2)
-               | _ => PanicM POrRhs
+               | _ => ErrM TypeMis
                end
         end
     | EBin op a b =>
@@ -581,7 +581,7 @@ Fixpoint eval (n : nat) (e : expr) (s : st) {struct n} : M (value * st) :=
         | Not, VBool b => OkM (VBool (negb b), s1)
         | Not, VNull => OkM (VBool true, s1)
         | Neg, VNum x => OkM (VNum (fneg x), s1)
-        | _, _ => PanicM PUnary
+        | _, _ => ErrM TypeMis
         end
     | EArr es => do (vs, s1) <- evals es s; OkM (VArr vs, s1)
     | EIdx a i =>
@@ -601,9 +601,9 @@ Fixpoint eval (n : nat) (e : expr) (s : st) {struct n} : M (value * st) :=
                        end
             | _ => ErrM InvIdx
             end
-        | _ => PanicM PIdxNonArray
+        | _ => ErrM TypeMis
         end
-    | EMember _ _ => PanicM PMemberNoCall
+    | EMember _ _ => ErrM TypeMis
     | ECall (EMember o f) args _ =>
         if mem_name f array_mut_methods then
           if bytes_eqb f n_push then
@@ -628,7 +628,7 @@ Fixpoint eval (n : nat) (e : expr) (s : st) {struct n} : M (value * st) :=
                     match v0, v1 with
                     | VNum x0, VNum x1 =>
                         OkM (VStr (slice str (to_isize (ffloor x0)) (to_isize (ffloor x1))), s3)
-                    | _, _ => PanicM PNumArgs
+                    | _, _ => ErrM TypeMis
                     end
                 | _ => PanicM PArgIndex
                 end
@@ -649,7 +649,7 @@ Fixpoint eval (n : nat) (e : expr) (s : st) {struct n} : M (value * st) :=
                         | NotFound => OkM (VNum (of_Z (-1)), s2)
                         | _ => PanicM PFind
                         end
-                    | _ => PanicM PStrArg
+                    | _ => ErrM TypeMis
                     end
                 | _ => PanicM PArgIndex
                 end
@@ -664,7 +664,7 @@ Fixpoint eval (n : nat) (e : expr) (s : st) {struct n} : M (value * st) :=
                         | SOk r => OkM (VStr r, s3)
                         | _ => PanicM PFind
                         end
-                    | _, _ => PanicM PStrArg
+                    | _, _ => ErrM TypeMis
                     end
                 | _ => PanicM PArgIndex
                 end
@@ -674,7 +674,7 @@ Fixpoint eval (n : nat) (e : expr) (s : st) {struct n} : M (value * st) :=
                     do (v0, s2) <- eval n' a0 s1;
                     match v0 with
                     | VStr pat => OkM (VArr (map VStr (split str pat)), s2)
-                    | _ => PanicM PStrArg
+                    | _ => ErrM TypeMis
                     end
                 | _ => PanicM PArgIndex
                 end
@@ -689,12 +689,12 @@ Fixpoint eval (n : nat) (e : expr) (s : st) {struct n} : M (value * st) :=
                     do (v0, s2) <- eval n' a0 s1;
                     match v0 with
                     | VStr sep => OkM (VStr (join_values items sep), s2)
-                    | _ => PanicM PStrArg
+                    | _ => ErrM TypeMis
                     end
                 | _ => PanicM PArgIndex
                 end
               else PanicM PMutBuiltin
-          | VBool _ => PanicM PBoolMethod
+          | VBool _ => ErrM TypeMis
           | VNull => ErrM TypeMis
           end
     | ECall (EVar fname _) args target =>
@@ -739,7 +739,7 @@ Fixpoint eval (n : nat) (e : expr) (s : st) {struct n} : M (value * st) :=
                   end
             end
         end
-    | ECall _ _ _ => PanicM PCallee
+    | ECall _ _ _ => ErrM TypeMis
     end
   end
 
@@ -760,7 +760,7 @@ with exec (n : nat) (t : stmt) (s : st) {struct n} : M (flow * st) :=
     | SSetIdx _ target e =>
         do (v, s1) <- eval n' e s;
         match flatten_target target [] with
-        | None => PanicM PIdxTarget
+        | None => ErrM TypeMis
         | Some (vn, vl, idx_exprs) =>
             let fix eval_indices (es : list expr) (s : st) : M (list Z * st) :=
               match es with
@@ -781,7 +781,7 @@ with exec (n : nat) (t : stmt) (s : st) {struct n} : M (flow * st) :=
         end
     | SIf _ c t f =>
         do (cv, s1) <- eval n' c s;
-        do b <- lift (truthy_cond PCond cv);
+        do b <- lift (truthy_cond cv);
         if b then exec_block n' t s1
         else match f with Some fb => exec_block n' fb s1 | None => OkM (FNormal, s1) end
     | SLoop _ c body => exec_loop n' c body s
@@ -800,7 +800,7 @@ with exec_loop (n : nat) (c : expr) (body : list stmt) (s : st) {struct n} : M (
   | O => FuelM
   | S n' =>
       do (cv, s1) <- eval n' c s;
-      do b <- lift (truthy_cond PLoopCond cv);
+      do b <- lift (truthy_cond cv);
       if negb b then OkM (FNormal, s1)
       else
         do (fl, s2) <- exec_block n' body s1;
